@@ -126,16 +126,24 @@ def _worker(job):
 def campaign(prop, profile, base_seed, tier, budget_s, max_runs, gopts=None, mopts=None,
              workers=None, stop_on=None):
     """run seeds until the wall budget or MAX_RUNS; yields results"""
+    import threading
     workers = workers or min(16, os.cpu_count() or 4)
     t0 = time.time()
+    # back-pressure: the pool's feeder thread would otherwise queue hundreds
+    # of jobs ahead, which all still run after the budget has expired
+    slots = threading.Semaphore(workers * 3)
 
     def jobs():
         i = 0
-        while i < max_runs and time.time() - t0 < budget_s:
+        while i < max_runs:
+            slots.acquire()
+            if time.time() - t0 >= budget_s:
+                break
             yield (prop, profile, run_seed(prop, i, base_seed), tier, gopts, mopts)
             i += 1
     with multiprocessing.Pool(workers, _worker_init) as pool:
-        for res in pool.imap_unordered(_worker, jobs(), chunksize=4):
+        for res in pool.imap_unordered(_worker, jobs(), chunksize=1):
+            slots.release()
             yield res
 
 
